@@ -83,6 +83,7 @@ def judge_note(S, site, n, want_letter, want_number, tags=None):
 
 def run_note(case):
     S = engine.S
+    S.sample(case)
     name, octave, sh, up = case
     num, size = R.shorthand_parts(sh)
     start = R.pitch_number(name, octave)
@@ -129,6 +130,7 @@ def run_accidental(case):
     """Note.augment / Note.diminish: same letter, one semitone, octave label untouched; augment then
     diminish gives the name back."""
     S = engine.S
+    S.sample(case)
     name, octave = case
     start = R.pitch_number(name, octave)
     a = Note(name, octave)
@@ -151,6 +153,7 @@ def run_accidental(case):
 
 def run_octave(case):
     S = engine.S
+    S.sample(case)
     name, octave, how = case
     n = Note(name, octave)
     if how == "up":
@@ -479,6 +482,7 @@ def all_ops():
 
 def run_lift(case):
     S = engine.S
+    S.sample(case)
     st = State(case["track"])
     snap = apply_action(st, case["target"], case["op"], True, S)
     if snap is not None:
@@ -548,6 +552,7 @@ class HistorySpec(BfsSpec):
         if not compare(S, "state", st, snap):
             return
         S.outcome(hash(snap) % 1000003)
+        S.sample(S.current_case)
         round_trips(st, S, snap)
 
     def canon(self, st):
@@ -594,10 +599,12 @@ def explore(ctx):
     if ctx.want("history"):
         depth = ctx.pick(3, 4)
         aset = ctx.pick("narrow", "narrow")
-        ctx.bound("history_depth", depth)
+        # quick: the chord-only and the tuplet-value track (many notes, nothing structurally new) go one level less deep
+        depths = {i: (depth - 1 if (ctx.quick and i in (1, 3)) else depth) for i in range(len(ZOO))}
+        ctx.bound("history_depth", {str(i): d for i, d in depths.items()})
         ctx.bound("history_actions", {"set": aset, "targets": {str(i): action_targets(i, aset) for i in range(len(ZOO))}, "ops": bfs_ops()})
         for i in range(len(ZOO)):
-            ctx.bfs("history", HistorySpec(i, aset), depth, label="history track %d" % i)
+            ctx.bfs("history", HistorySpec(i, aset), depths[i], label="history track %d" % i)
         if not ctx.quick:
             ctx.bound("history_wide_depth", 3)
             for i in range(len(ZOO)):
